@@ -486,6 +486,18 @@ fn law_jobs(seed: u64) -> Vec<Job> {
         shapes.push(Shape::Dyn(ws.iter().map(|w| *w as usize).collect()));
         shapes.push(Shape::DynGrown(ws.iter().map(|w| *w as usize).collect(), 1 + (wi % 3) as u8));
     }
+    // dynamic lists take usize weights: weights beyond 32 bits (and totals beyond 33, 40, 62 bits) weigh what they say
+    for ws in [
+        vec![3usize << 32, 1 << 32],
+        vec![1 << 31, 1 << 33],
+        vec![u32::MAX as usize + 1, u32::MAX as usize, 1 << 32],
+        vec![1 << 40, 3 << 40, 0, 1 << 41],
+        vec![1 << 61, 1 << 60, 1 << 60],
+        vec![5, u32::MAX as usize * 5],
+    ] {
+        shapes.push(Shape::Dyn(ws.clone()));
+        shapes.push(Shape::DynGrown(ws, 1));
+    }
     // long dynamic lists (a size-dependent fast path must not hide behind lists of <= 6 members)
     for (len, modulus) in [(17usize, 5u64), (40, 7), (130, 3), (300, 11)] {
         let ws: Vec<usize> = (0..len as u64).map(|i| (splitmix(seed ^ 0xD1 ^ i << 16 ^ len as u64) % modulus) as usize).collect();
@@ -528,7 +540,7 @@ fn law_jobs(seed: u64) -> Vec<Job> {
 }
 
 pub fn run(ctx: &mut Ctx) {
-    ctx.rule = "marker selectors (member i returns individual i and counts its calls) combined by real WeightedPair trees (all binary shapes up to 5 leaves for the laws, generated shapes up to 8 leaves for the invariants), real with_item_and_weight chains of 2..5 members and DynWeighted lists (also lists that are used for selections while they are still being extended with with_selector); weights from {0,1,2..,2^31,u32::MAX-1,u32::MAX} u random. Invariants per selection: exactly one member used, never a weight-0 member, the returned individual is the chosen member's; all-zero => zero-weight error with no member used (also when the population is empty, where otherwise exactly one positive-weight member is consulted and its error reported); construction fails iff a partial sum exceeds u32::MAX (also after an earlier overflow). Laws: member frequencies = w_i / sum(w). non-trivial = >= 3 members, >= 2 distinct positive weights, nesting depth >= 2 or a list used while being built (invariants); statistics with 0 < p < 1 (laws)".into();
+    ctx.rule = "marker selectors (member i returns individual i and counts its calls) combined by real WeightedPair trees (all binary shapes up to 5 leaves for the laws, generated shapes up to 8 leaves for the invariants), real with_item_and_weight chains of 2..5 members and DynWeighted lists (also lists that are used for selections while they are still being extended with with_selector); weights from {0,1,2..,2^31,u32::MAX-1,u32::MAX} u random, for the dynamic lists also weights of 2^32..2^61. Invariants per selection: exactly one member used, never a weight-0 member, the returned individual is the chosen member's; all-zero => zero-weight error with no member used (also when the population is empty, where otherwise exactly one positive-weight member is consulted and its error reported); construction fails iff a partial sum exceeds u32::MAX (also after an earlier overflow). Laws: member frequencies = w_i / sum(w). non-trivial = >= 3 members, >= 2 distinct positive weights, nesting depth >= 2 or a list used while being built (invariants); statistics with 0 < p < 1 (laws)".into();
     ctx.assumptions.push("the payload of WeightSumOverflow is not compared".into());
     let (n, trials) = ctx.tier.pick((300_000u32, 400_000u64), (5_000_000, 5_000_000));
     ctx.run_prop("invariants", n, strategy, oracle);
